@@ -33,10 +33,10 @@ M = [
  ("M015", ["C12"], TK + "transceiver.py", "\t\t\telif self.clck_gen.running and not clck_links:", "\t\t\telif self.clck_gen.running and not self.running:", "generator stopped while another owner still runs"),
  ("M020", ["C18"], TK + "fake_trx.py", "\t\tif msg.fn % self.burst_drop_period == 0:\n", "\t\tself.burst_drop_amount -= 1\n\t\tif msg.fn % self.burst_drop_period == 0:\n\t\t\tself.burst_drop_amount += 1\n\t\t\tself.burst_drop_amount -= 1\n\t\t\treturn True\n\t\tif False:\n", "budget decremented also on non-matching FN"),
  ("M021", ["C18"], TK + "fake_trx.py", "if period <= 0:", "if period < 0:", "period 0 accepted (later modulo by zero)"),
- ("M022", ["C18"], TK + "fake_trx.py", "\t\t\tself.burst_drop_amount = num\n\t\t\tself.burst_drop_period = 1\n", "\t\t\tself.burst_drop_amount = num\n", "one-argument form keeps the old period"),
+ ("M022", ["C18"], TK + "fake_trx.py", "\t\t\t\tself.burst_drop_amount = num\n\t\t\t\tself.burst_drop_period = 1\n", "\t\t\t\tself.burst_drop_amount = num\n", "one-argument form keeps the old period"),
  ("M023", ["C18"], TK + "fake_trx.py", "RSSI_NOISE_DEFAULT = -110", "RSSI_NOISE_DEFAULT = -109", "NOPE.ind RSSI not the noise level"),
  ("M024", ["C18"], TK + "fake_trx.py", "\t\tif self.rf_muted:\n\t\t\tmsg.nope_ind = True\n\t\telif not msg.nope_ind:", "\t\tif not msg.nope_ind:", "receiver-side RF mute ignored"),
- ("M025", ["C18"], TK + "fake_trx.py", "\t\t\tnum = int(request[1])\n\t\t\tif num < 0:\n\t\t\t\tlog.error(\"(%s) FAKE_DROP amount shall not \"\n\t\t\t\t\t\"be negative\" % self)\n\t\t\t\treturn -1\n\n\t\t\tself.burst_drop_amount = num\n\t\t\tself.burst_drop_period = 1", "\t\t\tnum = int(request[1])\n\t\t\tself.burst_drop_amount = num\n\t\t\tself.burst_drop_period = 1\n\t\t\tif num < 0:\n\t\t\t\treturn -1", "negative amount rejected after the state was changed"),
+ ("M025", ["C18"], TK + "fake_trx.py", "\t\t\tnum = int(request[1])\n\t\t\tif num < 0:\n\t\t\t\tlog.error(\"(%s) FAKE_DROP amount shall not \"\n\t\t\t\t\t\"be negative\" % self)\n\t\t\t\treturn -1\n\n\t\t\twith self.burst_drop_lock:\n\t\t\t\tself.burst_drop_amount = num\n\t\t\t\tself.burst_drop_period = 1", "\t\t\tnum = int(request[1])\n\t\t\twith self.burst_drop_lock:\n\t\t\t\tself.burst_drop_amount = num\n\t\t\t\tself.burst_drop_period = 1\n\t\t\tif num < 0:\n\t\t\t\treturn -1", "negative amount rejected after the state was changed"),
  ("M026", ["C18"], TK + "fake_trx.py", "if self.burst_drop_amount == 0:", "if self.burst_drop_amount <= 1:", "last requested burst is not dropped"),
  ("M027", ["C18"], TK + "burst_fwd.py", "\t\tif src_trx.rf_muted:\n", "\t\tif False:\n", "sender-side RF mute ignored"),
  ("M030", ["C19"], "src/target/firmware/layer1/sync.c", "ADD_MODULO(time->t1, 1, 2048);", "ADD_MODULO(time->t1, 1, 2047);", "T1 wraps one superframe early (only visible at the end of the hyperframe)"),
@@ -47,10 +47,10 @@ M = [
  ("M035", ["C19"], "src/target/firmware/layer1/sync.c", "\tif (delta_fn == 1) {", "\tif (delta_fn <= 2) {", "delta 2 treated as delta 1"),
  ("M040", ["C02"], TK + "burst_fwd.py", "\t\t\tif trx == src_trx:\n\t\t\t\tcontinue\n", "", "sender not skipped"),
  ("M041", ["C02"], TK + "burst_fwd.py", "\t\t\tif not trx.running:\n\t\t\t\tcontinue\n", "", "powered-off recipients served"),
- ("M042", ["C02"], TK + "transceiver.py", "\t\t(_, tx_freq) = self.fh.resolve(fn)", "\t\t(tx_freq, _) = self.fh.resolve(fn)", "hopping sender transmits on the rx frequency of the pair"),
+ ("M042", ["C02"], TK + "transceiver.py", "\t\t(_, tx_freq) = fh.resolve(fn)", "\t\t(tx_freq, _) = fh.resolve(fn)", "hopping sender transmits on the rx frequency of the pair"),
  ("M043", ["C02"], TK + "burst_fwd.py", "if trx.get_rx_freq(rx_msg.fn) != tx_freq:", "if trx.get_rx_freq(rx_msg.fn + 1) != tx_freq:", "recipient hopping evaluated for the next frame"),
  ("M044", ["C02", "C07"], TK + "gsm_shared.py", "(mp + (t3 & self._pnm)) % ma_len", "(mp + t3 & self._pnm) % ma_len", "original precedence defect in S = (M'+T') mod N"),
- ("M045", ["C02"], TK + "transceiver.py", "\tdef get_rx_freq(self, fn):\n\t\tif self.fh is None:", "\tdef get_rx_freq(self, fn):\n\t\tif self.fh is None or self._rx_freq is not None:", "stale RXTUNE value preferred over the hopping sequence"),
+ ("M045", ["C02"], TK + "transceiver.py", "\t\tfh = self.fh\n\t\tif fh is None:\n\t\t\treturn self._rx_freq", "\t\tfh = self.fh\n\t\tif fh is None or self._rx_freq is not None:\n\t\t\treturn self._rx_freq", "stale RXTUNE value preferred over the hopping sequence"),
  ("M046", ["C02"], TK + "burst_fwd.py", "\t\ttx_freq = src_trx.get_tx_freq(rx_msg.fn)\n", "\t\ttx_freq = src_trx.get_tx_freq(rx_msg.fn % 1326)\n", "sender hopping evaluated with FN modulo superframe (T1 lost)"),
  ("M050", ["C03"], TK + "transceiver.py", "\t\twith self._tx_queue_lock:\n\t\t\tfor msg in self._tx_queue:", "\t\tif True:\n\t\t\tfor msg in self._tx_queue:", "clck_tick partitions the queue without the lock"),
  ("M051", ["C03"], TK + "transceiver.py", "\tdef tx_queue_append(self, msg):\n\t\twith self._tx_queue_lock:", "\tdef tx_queue_append(self, msg):\n\t\tif True:", "append without the lock (harmless alone: append is atomic)"),
@@ -67,7 +67,7 @@ M = [
  ("M063", ["C05"], TK + "ctrl_if.py", "\t\tself.sendto(response, remote)", "\t\tself.send(response)", "reply sent to the configured peer instead of the sender"),
  ("M064", ["C05"], TK + "ctrl_if.py", "response = \"RSP \" + \" \".join(request) + \"\\0\"", "response = \"RSP \" + \" \".join(request)", "reply without the terminating NUL"),
  ("M065", ["C05", "C10"], TK + "fake_trx.py", "\t\t\tself.toa256_base += int(request[1])", "\t\t\tself.toa256_base = int(request[1])", "relative FAKE_TOA form treated as absolute"),
- ("M066", ["C05"], TK + "fake_trx.py", "\t\t\tif int(request[2]) < 0:\n\t\t\t\tself.fake_rssi_enabled = False\n\t\t\t\treturn 0\n", "", "negative FAKE_RSSI threshold no longer disables the simulation"),
+ ("M066", ["C05"], TK + "fake_trx.py", "\t\t\tif threshold < 0:\n\t\t\t\tself.fake_rssi_enabled = False\n\t\t\t\treturn 0\n", "", "negative FAKE_RSSI threshold no longer disables the simulation"),
  ("M067", ["C05", "C18"], TK + "ctrl_if_trx.py", "self.trx.rf_muted = int(request[1]) > 0", "self.trx.rf_muted = int(request[1]) > 1", "RFMUTE 1 does not mute"),
  ("M068", ["C05"], TK + "ctrl_if_trx.py", "return (0, [str(self.trx.tx_power_base)])", "return (0, [str(self.trx.tx_power)])", "NOMTXPOWER reports power minus attenuation"),
  ("M069", ["C05"], TK + "fake_pm.py", "\t\t\tif not trx.running:\n\t\t\t\tcontinue\n", "", "MEASURE sees powered-off transceivers"),
